@@ -250,7 +250,14 @@ class Pool:
             return U
         if op == 'order':
             d = x.order() if c.get('via') != 'explicit' else x.order({})
-            return {'ids': [self.cell_id(k) for k in d]}
+            ids = [self.cell_id(k) for k in d]
+            # the caller owns the dictionary it was given: it collects a second root in it (what the `result` parameter is for), or
+            # empties it - neither may change what this cell reports or serialises to afterwards
+            if c.get('via') == 'reuse':
+                self.o(c['other']).order(d)
+            elif c.get('via') == 'edit':
+                d.clear()
+            return {'ids': ids}
         raise ValueError(op)
 
     def _read(self, s, op, c):
